@@ -31,11 +31,13 @@ for pid in props:
     })
 LEAN_DIR = {"ir": "IR", "hier": "Hier", "xform": "Xform", "names": "Names", "query": "Query", "compare": "Compare",
             "edif": "Edif", "verilog": "Verilog", "eblif": "Eblif", "io_engine": "IO"}
-EXE = {"io_engine": "drv_io"}
+AUDIT = {"irnames": "Spydr.IR.AuditNames", "irevents": "Spydr.IR.AuditEvents", "irclone": "Spydr.IR.AuditClone"}
+EXE = {"io_engine": "drv_io", "irnames": "drv_ir", "irevents": "drv_ir", "irclone": "drv_ir"}
 targets = []
 for e in sorted(engines):
-    targets.append("Spydr.%s.Audit" % LEAN_DIR[e])
-    targets.append(EXE.get(e, "drv_" + e))
+    for t in (AUDIT.get(e) or "Spydr.%s.Audit" % LEAN_DIR[e], EXE.get(e, "drv_" + e)):
+        if t not in targets:
+            targets.append(t)
 man = {
     "version": 1,
     "setup_cmd": "cd lean && lake build " + " ".join(targets),
